@@ -39,8 +39,16 @@ def run_property(pid, tier='quick', seed=0):
     shutil.rmtree(workdir, ignore_errors=True)
     os.makedirs(workdir, exist_ok=True)
     # load every configuration needed before going parallel
-    for cfg in sorted(set(u.cfg for u in units)):
-        core.get_ast(cfg)
+    early_problems = []
+    try:
+        for cfg in sorted(set(u.cfg for u in units)):
+            core.get_ast(cfg)
+    except core.Undecided as ex:
+        # the specification no longer compiles against the tree (e.g. the signature of an internal helper it names was
+        # changed): no unit can be decided. The native stand-ins use only the public API and are still run, so that a
+        # real violation is still reported; otherwise the outcome is exit 2 (undecided), never a verdict.
+        early_problems.append('spec/all.cc does not compile against the current tree: %s' % str(ex)[-1500:])
+        units = []
     results = []
     with concurrent.futures.ThreadPoolExecutor(max_workers=core.NCPU) as tp:
         futs = {(tp.submit(intwp.solve_unit_int, u, workdir, core, seed) if u.engine == 'int' else
@@ -69,6 +77,8 @@ def run_property(pid, tier='quick', seed=0):
     # extra (non-CBMC) steps: stand-ins, INT back end; each returns dict(name, kind, ok, detail, violations=[...])
     extras = []
     for step in bind.extras(pid, tier):
+        if early_problems and getattr(step, '__name__', '').startswith('smoke_'):
+            continue
         try:
             e = step(tier, seed)
         except core.Undecided as ex:
@@ -77,7 +87,7 @@ def run_property(pid, tier='quick', seed=0):
         log('[%s] extra %-40s ok=%s %s' % (pid, e['name'], e['ok'], str(e.get('summary', ''))[:100]))
 
     known = [k for k in load_known() if k.get('property') == pid]
-    problems, violations, known_hits = [], [], []
+    problems, violations, known_hits = list(early_problems), [], []
     n_obl = n_ok = n_bounded = n_bounded_ok = 0
     by_backend = {}
     samples = []
@@ -151,7 +161,7 @@ def run_property(pid, tier='quick', seed=0):
             for pat in u.expect_props:
                 if not re.search(pat, names):
                     problems.append('%s: expected obligation class %s not generated' % (u.id, pat))
-        if r['meta'] and n_obl == 0:
+        if r['meta'] and not any((not o['lib']) and 'vf_canary' not in o['desc'] for o in r['obligations']) and not r['undecided']:
             problems.append('%s: zero obligations' % u.id)
 
     # ---- replay every solver-refuted obligation on the real code
